@@ -85,6 +85,8 @@ pub fn run_param(case: &Value) -> Value {
                     }
                     "build" => { let r = b.build(); obs.push(json!({"k": "res", "ok": r.is_ok()})); if let Ok(c) = r { circs.push(c); } else { circs.push(Circuit::new(n)); } }
                     "build_final" => { let r = b.build_final(); obs.push(json!({"k": "res", "ok": r.is_ok()})); if let Ok(c) = r { circs.push(c); } else { circs.push(Circuit::new(n)); } }
+                    // the pending gates taken out as a subroutine and put back: the builder holds the same gates (same parameter cells) as before
+                    "via_sub" => { let s = b.build_subroutine(); b.add_subroutine(s); obs.push(json!({"k": "none"})); }
                     "exec" => obs.push({ let mut s = state_json(circs[vu(&o["c"])].execute(&probe)); s["k"] = json!("state"); s }),
                     // export of a built circuit NOW, next to the export of a freshly assembled circuit holding the same gates (same
                     // parameter cells): both must show the parameters' current values, so the two texts must be equal
